@@ -24,7 +24,7 @@ def sigfn(facet, kind, key, det):
 
 
 def run(chk, b, tier):
-    n = 240 if tier == "quick" else 6000
+    n = 240 if tier == "quick" else 12000
 
     def nt(f):
         k = []
